@@ -95,6 +95,8 @@ def run(S):
     shared.permutation_word(S)
     shared.descent(S)
     shared.writers_dirty(S)
+    shared.structure(S)
+    shared.names(S, ('yakushima::scan',))
 
 
 SHRINKS = ('erase', 'resize', 'pop_back', 'clear')
